@@ -38,6 +38,12 @@ Guards (what keeps the oracle from demanding more than the property):
     but under a separate mechanism when a name in that table contains one of the
     characters the expressions cannot cross (``"`` ``)`` newline), so that this known
     weakness cannot mask a regression for ordinary names.
+  * mechanisms are computed from the names of the failing case: ``%(`` / ``[POSTCOMPILE_`` in a
+    name, a name ending in newline that the preparer leaves bare, column names (or bind
+    names derived from them: the compiler's own uniqueness assertion) that collide after
+    ``bindname_escape_characters``, non-blank whitespace in the column of an IN - each is a
+    separate, already reported cause and gets its own stable mechanism, so a generic
+    ``sqlite-exec-error:<stage>`` / ``-mismatch`` mechanism is left for anything new.
   * PG / MySQL / MSSQL / Oracle keyword sets cannot be probed (no servers): only their
     quoting *grammar* is judged.
 """
@@ -70,6 +76,9 @@ META = {
     ],
 }
 
+import re
+
+WORD = re.compile(r"[a-z_][a-z0-9_]*")   # only such a name can be a keyword (and may appear in a mechanism)
 REGEX_HOSTILE = ('"', ")", "\n", "$")
 ROLES = ("schema", "t1", "t2", "c1", "c2", "c3", "ix", "uq", "fk", "ck", "lbl", "alias")
 
@@ -142,11 +151,23 @@ def roundtrip(st, names, kind):
         txt = f"{type(e).__name__}: {str(e)[:300]}"
         if stage == "select-in" and any(ch.isspace() and ch != " " for ch in n["c1"]):
             return "expanding-bind-name-with-non-space-whitespace", txt
+        if isinstance(e, AssertionError) or isinstance(getattr(e, "orig", None), AssertionError):
+            # the compiler's own "escaped bind names are unique" assertion: names derived from
+            # two columns collide after bindname_escape_characters (same defect as the
+            # column-level collision detected in taints_of)
+            err = e if isinstance(e, AssertionError) else e.orig
+            tb = err.__traceback__
+            last = None
+            while tb is not None:
+                last = tb.tb_frame.f_code.co_name
+                tb = tb.tb_next
+            if last == "_process_positional":
+                return "bind-name-escape-collision", txt
         for x in n.values():
             if not x:
                 continue
             lx = x.lower()
-            if lx == x and st.sqlite_prep.quote(x) == x and probe(st, lx):
+            if lx == x and WORD.fullmatch(lx) and st.sqlite_prep.quote(x) == x and probe(st, lx):
                 return f"sqlite-reserved-word-missing:{lx}", txt
         return f"sqlite-exec-error:{stage}", txt
 
@@ -174,6 +195,26 @@ def roundtrip(st, names, kind):
         else:
             mech = f"sqlite-reflect-{kindname}-mismatch"
         problem("reflect", mech, f"{kindname}: reflected {got!r} expected {want!r}")
+
+    class _Raw:
+        """The independent observer.  Its statements quote the *defined* names with the
+        harness' own quoting; if SQLite cannot find an object under its defined name after
+        the library's DDL/DML succeeded, the stored name differs - a finding, not a crash."""
+
+        def __init__(self):
+            self.con = None
+
+        def execute(self, sql, *a):
+            try:
+                return self.con.execute(sql, *a)
+            except sqlite3.Error as e:
+                problem("raw-observe", "sqlite-stored-name-differs", f"observer statement {sql!r} failed: {e}")
+                raise _ObserverFailed() from e
+
+    class _ObserverFailed(Exception):
+        pass
+
+    rawobs = _Raw()
 
     md = sa.MetaData()
     T1 = sa.Table(
@@ -209,7 +250,8 @@ def roundtrip(st, names, kind):
     pre = f"{hq(sch)}." if sch else ""
     try:
         with eng.connect() as c:
-            raw = c.connection.dbapi_connection
+            rawobs.con = c.connection.dbapi_connection
+            raw = rawobs
             if sch:
                 c.exec_driver_sql(f"ATTACH DATABASE ':memory:' AS {hq(sch)}")  # harness statement
             ok = step("create", lambda: md.create_all(c), fatal=True)
@@ -332,6 +374,8 @@ def roundtrip(st, names, kind):
                         problem("drop", "sqlite-drop-left-objects", f"left {left!r}")
 
                 step("drop", do_drop)
+    except _ObserverFailed:
+        pass  # recorded as a problem above; the rest of the case is skipped
     finally:
         eng.dispose()
     ctx.count("stmts_executed", executed[0])
@@ -447,7 +491,9 @@ def calibrate_label(st, name):
     ctx.count("lexer_calibrations_on_sqlite")
     if stored != name:
         lx = name.lower()
-        if lx == name and text == name and probe(st, lx):
+        if name.endswith("\n") and text == name:
+            mech = "legal-characters-regex-accepts-trailing-newline"
+        elif lx == name and text == name and WORD.fullmatch(lx) and probe(st, lx):
             mech = f"sqlite-reserved-word-missing:{lx}"
         else:
             mech = "sqlite-label-quoting-wrong-name"
